@@ -4,6 +4,7 @@ import (
 	"bytes"
 	"encoding/json"
 	"fmt"
+	"strings"
 	"sync"
 	"sync/atomic"
 	"testing"
@@ -38,6 +39,9 @@ type C05Case struct {
 	WitnessQoS byte       `json:"witness_qos"`
 	NMsgs      int        `json:"nmsgs"`
 	Attackers  []Attacker `json:"attackers"`
+	// WitnessPad: extra bytes per witness message (large messages fill the ring of a
+	// subscriber that has stopped reading, so that the witness publisher is held up by it)
+	WitnessPad int `json:"witness_pad,omitempty"`
 }
 
 type c05result struct {
@@ -48,8 +52,10 @@ type c05result struct {
 
 const witnessTopic = "wit/x"
 
-func witnessPayload(n int) []byte {
-	b := payload(n, 24+n%40)
+func witnessPayload(n int) []byte { return witnessPayloadPad(n, 0) }
+
+func witnessPayloadPad(n, pad int) []byte {
+	b := payload(n, 24+n%40+pad)
 	return append([]byte(fmt.Sprintf("W%06d:", n)), b...)
 }
 
@@ -151,6 +157,21 @@ func runC05(c C05Case) (res c05result) {
 			case "stall-close":
 				time.Sleep(3 * time.Millisecond)
 				at.Close()
+			case "stall-disconnect":
+				// the subscriber stops reading, traffic addressed to it piles up (its ring fills
+				// and publishers are held up by it), then it says DISCONNECT and leaves the
+				// socket open: the broker has to end the connection itself, which releases
+				// whoever was delivering to it
+				at.Barrier()
+				at.Stall()
+				time.Sleep(40 * time.Millisecond)
+				at.SendAsync([]byte{0xE0, 0})
+				if !at.WaitTeardown(wire.DefaultWait) {
+					trapNote <- "!the connection of a subscriber that stopped reading and then sent DISCONNECT (socket left open) was not torn down"
+				} else {
+					trapNote <- "stalled-subscriber-ends-by-DISCONNECT-with-open-socket"
+				}
+				at.Close()
 			case "idle":
 				// leave it to the broker (connect timeout 1 s / protocol error)
 				at.WaitClosed(1500 * time.Millisecond)
@@ -161,7 +182,7 @@ func runC05(c C05Case) (res c05result) {
 	// witness traffic
 	pid := uint16(0)
 	for n := 1; n <= c.NMsgs; n++ {
-		pp := &codec.Packet{Type: codec.PUBLISH, QoS: c.WitnessQoS, Topic: []byte(witnessTopic), Payload: witnessPayload(n)}
+		pp := &codec.Packet{Type: codec.PUBLISH, QoS: c.WitnessQoS, Topic: []byte(witnessTopic), Payload: witnessPayloadPad(n, c.WitnessPad)}
 		if c.WitnessQoS > 0 {
 			pid++
 			pp.PacketID = pid
@@ -180,6 +201,12 @@ func runC05(c C05Case) (res c05result) {
 	wg.Wait()
 	close(trapNote)
 	for s := range trapNote {
+		if strings.HasPrefix(s, "!") {
+			if r := c05hang(res, s[1:]); r.Fail != "" {
+				return r
+			}
+			continue
+		}
 		class(s)
 	}
 	// (1) process alive, no escaped panic
@@ -207,7 +234,7 @@ func runC05(c C05Case) (res c05result) {
 			continue
 		}
 		n++
-		if string(r.P.Topic) != witnessTopic || !bytes.Equal(r.P.Payload, witnessPayload(n)) {
+		if string(r.P.Topic) != witnessTopic || !bytes.Equal(r.P.Payload, witnessPayloadPad(n, c.WitnessPad)) {
 			return c05result{Fail: fmt.Sprintf("witness subscriber: message %d of the sequence is wrong (topic %q, %d bytes, starts %q)", n, r.P.Topic, len(r.P.Payload), clip(r.P.Payload, 16))}
 		}
 	}
@@ -228,7 +255,7 @@ func runC05(c C05Case) (res c05result) {
 			continue
 		}
 		n++
-		if !bytes.Equal(r.P.Payload, witnessPayload(n)) {
+		if !bytes.Equal(r.P.Payload, witnessPayloadPad(n, c.WitnessPad)) {
 			return c05result{Fail: fmt.Sprintf("witness subscribed to '#': message %d of the witness sequence is wrong (%d bytes, starts %q)", n, len(r.P.Payload), clip(r.P.Payload, 16))}
 		}
 	}
@@ -395,7 +422,24 @@ func genAttacker(t *rapid.T, c *C05Case, ai int) Attacker {
 	return a
 }
 
+// genC05Jam: a valid subscriber of the witness topic stops reading while large
+// witness messages pile up for it, then ends with a DISCONNECT packet on a
+// socket it leaves open.
+func genC05Jam(t *rapid.T) C05Case {
+	c := C05Case{BufSize: 16384, WitnessQoS: byte(rapid.IntRange(0, 1).Draw(t, "wq")), NMsgs: rapid.IntRange(24, 40).Draw(t, "nmsgs"), WitnessPad: rapid.SampledFrom([]int{1200, 3000}).Draw(t, "pad")}
+	a := Attacker{StartAt: rapid.IntRange(0, 3).Draw(t, "startat"), ToWitness: true, End: "stall-disconnect", Kind: "valid-subscriber-stalls-then-disconnects", Origin: "valid session subscribed to the witness topic"}
+	a.Stream = bytes.Join([][]byte{
+		codec.Encode(wire.ConnectPacket("jam", rapid.Bool().Draw(t, "clean"), 60)),
+		codec.Encode(&codec.Packet{Type: codec.SUBSCRIBE, PacketID: 1, Topics: [][]byte{[]byte("wit/#")}, QoSs: []byte{byte(rapid.IntRange(0, 1).Draw(t, "sq"))}}),
+	}, nil)
+	c.Attackers = []Attacker{a}
+	return c
+}
+
 func genC05(t *rapid.T) C05Case {
+	if rapid.IntRange(0, 7).Draw(t, "jam") == 0 {
+		return genC05Jam(t)
+	}
 	c := C05Case{BufSize: 16384, WitnessQoS: byte(rapid.IntRange(0, 1).Draw(t, "wq")), NMsgs: rapid.IntRange(12, 60).Draw(t, "nmsgs")}
 	for i, n := 0, rapid.IntRange(1, 3).Draw(t, "nattackers"); i < n; i++ {
 		c.Attackers = append(c.Attackers, genAttacker(t, &c, i))
